@@ -99,6 +99,19 @@ def r_seed_first(c):
             "seeds-input-names", m.loc(LC, g),
             "the names of all inputs (placeholders, size parameters, named data) of all "
             "outputs are not added to the generator")
+    # preprocess(): before data wrappers are given generated names, ALL named
+    # placeholders and size parameters are made known to the generator (a user
+    # name need not look reserved to clash: Named("x") data next to placeholder x)
+    pp = m.func("pytato.codegen.preprocess")
+    pseeds = find(pp, """$mp.var_name_gen.add_names({$i.name for $i in InputGatherer()($outs)
+        if isinstance($i, Placeholder | SizeParam) and $i.name is not None})""") \
+        + find(pp, """$mp.var_name_gen.add_names({$i.name for $i in InputGatherer()($outs)
+        if isinstance($i, Placeholder | SizeParam) if $i.name is not None})""")
+    c.check(len(pseeds) == 1, "R15-SEED-FIRST", "codegen.preprocess",
+            "seeds-every-named-input", m.loc("pytato.codegen", pp),
+            "the preprocessor's name generator is not told the name of EVERY named "
+            "placeholder and size parameter (no further filter on the name): a data wrapper "
+            "named through a tag gets a name an input already has")
     outs_seeded = find(g, "$state.var_name_gen.add_names($outs)")
     c.check(len(outs_seeded) == 1 and (not seeds or (
         outs_seeded[0]["$outs"] == seeds[0]["$outs"]
